@@ -243,7 +243,9 @@ impl Property for C10 {
             for active in [true, false] {
                 for t in &ts_set {
                     evals += 1;
-                    let st = SimWalStore::from_image(&img);
+                    // now and then the directory also holds a file that is not a WAL file and sorts after them all
+                    let stray = fnv(*t, &[active as u8, 9]) % 4 == 0;
+                    let st = if stray { let mut im = img.clone(); im.insert("wal.lock".to_string(), b"pid 4711".to_vec()); rep.probe("stray_file_in_wal_directory"); SimWalStore::from_image(&im) } else { SimWalStore::from_image(&img) };
                     let mut r = match WalRotator::new(st.clone(), max_file_size) { Ok(r) => r, Err(_) => continue };
                     let mut active_name = None;
                     let mut extra: Option<(Vec<u8>, u64)> = None;
